@@ -48,14 +48,19 @@ def wx_mission(draw):
             'fid': draw(st.one_of(st.none(), st.integers(1, 10**9))), 'cls': 'wx'}
 
 
+MODES = ('block', 'fine', 'weather')
+
+
 @st.composite
-def history_options(draw, weather):
+def history_options(draw, mode):
     """Builder options of a history.  Steps are coarse (a weather flight costs
-    ~15 ms per point, and every call is flown twice)."""
-    if not weather and draw(st.integers(0, 999)) % 3 == 1:
-        # the shipped default discretisation scaled by two: 50-point phases, hand-over on the buffers' block boundary
-        return {'clm': 0.02, 'crz': 0.02, 'des': 0.02, 'iterate': draw(st.booleans()),
+    ~15 ms per point, and every call is flown twice).  'block': the shipped
+    default discretisation scaled by two for climb and cruise (50-point phases,
+    hand-over exactly on the per-point buffers' block boundary)."""
+    if mode == 'block':
+        return {'clm': 0.02, 'crz': 0.02, 'des': draw(st.sampled_from([0.02, 0.25, 0.5])), 'iterate': draw(st.booleans()),
                 'max_iters': draw(st.integers(1, 3)), 'reltol': draw(st.sampled_from([1e-9, 1e-2, 0.05, 0.2]))}
+    weather = mode == 'weather'
     n = st.integers(2, 4) if weather else st.one_of(st.integers(2, 12), st.integers(2, 25))
     frac = st.one_of(n.map(lambda k: 1.0 / k), n.map(lambda k: 1.0 / (k + 0.5)))
     return {
@@ -67,9 +72,9 @@ def history_options(draw, weather):
 
 
 @st.composite
-def history_config(draw):
-    weather = draw(st.integers(0, 999)) % 8 == 3  # ~1/8 (an interior residue: no boundary bias)
-    opts = draw(history_options(weather))
+def history_config(draw, mode):
+    weather = mode == 'weather'
+    opts = draw(history_options(mode))
     if weather:
         tables = draw(st.lists(fc.tables(weather_ok=True, dist_km=1200.0), min_size=1, max_size=2))
         missions = draw(st.lists(wx_mission(), min_size=3, max_size=5))
@@ -79,13 +84,16 @@ def history_config(draw):
         rts = fc.route().filter(lambda r: r['dist_km'] <= 3500.0)
         missions = draw(st.lists(rts.flatmap(lambda r: fc.mission(rt=r, max_alt_ft=alt, above=False)),
                                  min_size=4, max_size=12))
-    return {'opts': opts, 'weather': weather, 'tables': tables, 'missions': missions}
+    return {'mode': mode, 'opts': opts, 'weather': weather, 'tables': tables, 'missions': missions}
 
 
 _MI, _TI = st.integers(0, 11), st.integers(0, 2)
-_VALID = st.fixed_dictionaries({'a': st.just('valid'), 'mi': _MI, 'ti': _TI})
-_VALID_MASS = st.fixed_dictionaries({'a': st.just('valid'), 'mi': _MI, 'ti': _TI, 'smf': st.floats(0.45, 0.98)})
-_INVALID = st.fixed_dictionaries({'a': st.just('invalid'), 'kind': st.sampled_from(KINDS + WX_KINDS), 'mi': _MI, 'ti': _TI})
+_FID = st.sampled_from([None, None, 7, 7, 123456789, 2**40 + 1])  # per call: consecutive flights often differ
+_VALID = st.fixed_dictionaries({'a': st.just('valid'), 'mi': _MI, 'ti': _TI, 'fid': _FID})
+_VALID_MASS = st.fixed_dictionaries({'a': st.just('valid'), 'mi': _MI, 'ti': _TI, 'fid': _FID,
+                                     'smf': st.floats(0.45, 0.98)})
+_INVALID = st.fixed_dictionaries({'a': st.just('invalid'), 'k': st.sampled_from(list(range(91))), 'mi': _MI, 'ti': _TI})
+WX_POOL = WX_KINDS + KINDS[:2] + WX_KINDS + KINDS[2:]  # weather histories: kind = WX_POOL[k % 13], others: KINDS[k % 7]
 ACTIONS = st.one_of(_VALID, _VALID, _VALID_MASS, st.just({'a': 'again'}), _INVALID, _INVALID, _INVALID)
 
 
@@ -127,15 +135,14 @@ class BuilderMachine(LoggedMachine):
         self.flags = set()
         self.calls = 0
 
-    # ---- set-up
-    @initialize(cfg=history_config())
+    # ---- set-up (called by the @initialize rule of the per-mode subclasses, and directly by replay)
     def setup(self, cfg):
         self.op('setup', cfg=cfg)
         self.cfg = cfg
         self.builder = fc.make_builder(cfg['opts'], use_weather=cfg['weather'])
         self.options0 = (repr(self.builder.options), self.builder.frac_step_clm, self.builder.frac_step_crz,
                          self.builder.frac_step_des)
-        self.ctx.label('history:weather' if cfg['weather'] else 'history:no_weather',
+        self.ctx.label('history:mode:' + cfg.get('mode', '?'),
                        'history:iterate' if cfg['opts']['iterate'] else 'history:single_pass')
 
     def teardown(self):
@@ -252,14 +259,15 @@ class BuilderMachine(LoggedMachine):
         mi, ti = mi % len(ms), ti % len(ts)
         return ms[mi], (f'A{mi:02d}', f'B{mi:02d}'), ts[ti]
 
-    def _valid(self, mi, ti, smf):
+    def _valid(self, mi, ti, smf, fid=None):
         m, codes, t = self._pick(mi, ti)
+        m = dict(m, fid=fid)
         sm = None
         if smf is not None:
             info = fc.table_info(t)
             sm = info['m_lo'] + smf * (info['m_hi'] - info['m_lo'])
         apt = {codes[0]: tuple(m['o']), codes[1]: tuple(m['d'])}
-        self.last_valid = (mi, ti, smf)
+        self.last_valid = (mi, ti, smf, fid)
         self._call('valid', m, codes, apt, t, None, sm)
 
     # One dispatching rule: Hypothesis' swarm testing switches whole rules off per example, which
@@ -269,18 +277,18 @@ class BuilderMachine(LoggedMachine):
         self.op('step', action=action)
         a = action['a']
         if a == 'valid':
-            self._valid(action['mi'], action['ti'], action.get('smf'))
+            self._valid(action['mi'], action['ti'], action.get('smf'), action.get('fid'))
         elif a == 'again':
             # repeat the most recent valid mission (whatever happened in between)
             if self.last_valid is not None:
                 self._valid(*self.last_valid)
-        elif action['kind'] in WX_KINDS and self.cfg['weather']:
-            self.fly_invalid_weather(action['kind'], action['mi'], action['ti'])
         else:
-            kind = action['kind']
-            if kind in WX_KINDS:  # not applicable without weather: use a plain kind instead
-                kind = KINDS[WX_KINDS.index(kind)]
-            self.fly_invalid(kind, action['mi'], action['ti'])
+            pool = WX_POOL if self.cfg['weather'] else KINDS
+            kind = pool[action['k'] % len(pool)]
+            if kind in WX_KINDS:
+                self.fly_invalid_weather(kind, action['mi'], action['ti'])
+            else:
+                self.fly_invalid(kind, action['mi'], action['ti'])
 
     def fly_invalid(self, kind, mi, ti):
         from AEIC.trajectories.ground_track import GroundTrack
@@ -343,6 +351,20 @@ class BuilderMachine(LoggedMachine):
 # --------------------------------------------------------------------------
 
 
+def machine_for(mode):
+    """Machine class whose histories are all of one mode (fixed shares of the
+    budget instead of a drawn flag: the weather and 50-point-block histories
+    are the expensive/rare ones)."""
+
+    class M(BuilderMachine):
+        @initialize(cfg=history_config(mode))
+        def init(self, cfg):
+            self.setup(cfg)
+
+    M.__name__ = M.__qualname__ = f'BuilderMachine_{mode}'
+    return M
+
+
 @contextmanager
 def _env(ctx: core.Ctx):
     """Configuration with a private weather directory (a copy of the test
@@ -363,7 +385,8 @@ def run(ctx: core.Ctx):
     ctx.level = 'exploration'
     ctx.rule = (
         'Hypothesis rule-based histories on one LegacyBuilder (options drawn per history: step fractions, '
-        'iterate_mass, max iterations 1-8, tolerance, weather on in about 1/8 of the histories, 50-point phases in about 1/3) over a per-history pool of '
+        'iterate_mass, max iterations 1-5, tolerance); three strata with fixed budget shares: 50-point climb/cruise phases, '
+        'arbitrary coarse steps, weather on (3-5 points per phase); per-history pool of '
         '1-3 performance tables and 3-12 missions; one rule with actions valid / valid with an explicit starting mass / again '
         '(repeat the latest valid mission) / '
         'fly_invalid(7 kinds: unknown origin/destination, destination above cruise level, origin above the ceiling, '
@@ -381,7 +404,9 @@ def run(ctx: core.Ctx):
         'weather histories use routes inside the test file domain (33-43N, 85-71W) on 2024-09-01',
     ]
     with _env(ctx):
-        core.run_machine(ctx, BuilderMachine, max_examples=ctx.n(40, 320), steps=16)
+        core.run_machine(ctx, machine_for('block'), max_examples=ctx.n(14, 130), steps=16, salt=0)
+        core.run_machine(ctx, machine_for('fine'), max_examples=ctx.n(18, 160), steps=16, salt=20)
+        core.run_machine(ctx, machine_for('weather'), max_examples=ctx.n(6, 40), steps=16, salt=40)
 
 
 def replay(ctx: core.Ctx, case):
